@@ -152,6 +152,9 @@ func genBlind(r *RNG) TBlind {
 	switch r.Intn(10) {
 	case 0:
 		b.Level = -1 // break
+		if r.Chance(1, 2) {
+			b.Ante, b.Dealer, b.SB, b.BB = -1, -1, -1, -1 // ... announced without amounts
+		}
 	case 1:
 		b.SB = 0 // no small blind
 	}
